@@ -129,57 +129,76 @@ def view(ir, m):
 
 # ------------------------------------------------------------------------------------------------ the listing-edit oracle
 class Edits:
-    """modifications of one block, positions relative to the section start"""
+    """modifications (possibly of several blocks), positions relative to the section start.
+    run["edits"]: tuples (op, offset, length, patch name[, target block index]); run["block_bases"]: index -> original offset"""
 
     def __init__(self, run):
-        self.t0 = run["target_offset"]
-        self.size = run["target"].size if False else None
         recs = list(run["records"])
-        self.mods = []          # (pos, del_len, patch_bytes, name, registration index)
-        # registration order at equal offsets; the recorder saw the patches in application order (sorted by offset, then registration)
-        order = sorted(range(len(run["edits"])), key=lambda i: (run["edits"][i][1], i))
+        bases = run["block_bases"]
+        self.mods = []          # (pos, del_len, patch_bytes, name, registration index, target index)
+        edits = [tuple(e) + ((run.get("default_target", 1),) if len(e) == 4 else ()) for e in run["edits"]]
+        self.edits = edits
+        # application order: blocks in address order, then offset, then registration order
+        order = sorted(range(len(edits)), key=lambda i: (bases[edits[i][4]], edits[i][1], i))
         byidx = {}
         ri = 0
         for i in order:
-            op, o, l, pn = run["edits"][i]
+            op, o, l, pn, t = edits[i]
             if pn is not None:
                 byidx[i] = recs[ri]["bytes"] if ri < len(recs) else None
                 ri += 1
         self.complete = ri == len(recs) and all(x is not None for x in byidx.values())
         for i in order:
-            op, o, l, pn = run["edits"][i]
-            self.mods.append((self.t0 + o, l, byidx.get(i, b"") or b"", pn, i))
+            op, o, l, pn, t = edits[i]
+            self.mods.append((bases[t] + o, l, byidx.get(i, b"") or b"", pn, i, t))
 
     def out_before(self, p):
         """number of output bytes produced by everything strictly before original position p"""
         n = p
-        for (pos, l, pb, pn, i) in self.mods:
+        for (pos, l, pb, pn, i, t) in self.mods:
             if pos < p:
                 n += len(pb) - min(l, p - pos)
         return n
 
-    def inserted_at(self, p):
-        return sum(len(pb) for (pos, l, pb, pn, i) in self.mods if pos == p)
+    def inserted_at(self, p, pred=lambda t: True):
+        return sum(len(pb) for (pos, l, pb, pn, i, t) in self.mods if pos == p and pred(t))
 
     def deleted(self, p):
-        return any(pos <= p < pos + l for (pos, l, pb, pn, i) in self.mods)
+        return any(pos <= p < pos + l for (pos, l, pb, pn, i, t) in self.mods)
 
     def lo(self, p):
-        """where a start-of-block label at p goes: before anything inserted at p"""
         return self.out_before(p)
 
     def hi(self, p):
-        """where an end-of-block label at p goes: after anything inserted at p"""
         return self.out_before(p) + self.inserted_at(p)
+
+    def label_pos(self, p, kind, block_index):
+        """a start label of block i at p: after the code inserted at the END of earlier blocks (same position), before code
+        inserted at offset 0 of its own block; an end label of block i: after everything inserted at the end of block i"""
+        if kind == "start":
+            return self.out_before(p) + self.inserted_at(p, lambda t: t < block_index)
+        return self.out_before(p) + self.inserted_at(p, lambda t: t <= block_index)
 
     def newpos(self, p):
         """new position of the surviving original byte p"""
         return None if self.deleted(p) else self.out_before(p) + self.inserted_at(p)
 
+    def patch_start(self, reg_index):
+        """output position where the patch of registration `reg_index` starts"""
+        before = 0
+        for (pos, l, pb, pn, i, t) in self.mods:
+            if i == reg_index:
+                return self.out_before(pos) + before
+            # earlier mods at the same position precede it (mods are in application order)
+            tgt = [m for m in self.mods if m[4] == reg_index][0]
+            if pos == tgt[0]:
+                before += len(pb)
+        return None
+
     def expected_bytes(self, orig):
         out = bytearray()
         pos = 0
-        for (p, l, pb, pn, i) in self.mods:
+        for (p, l, pb, pn, i, t) in self.mods:
             out += orig[pos:p]
             out += pb
             pos = p + l
